@@ -559,7 +559,7 @@ impl Property for C04 {
     type Plan = C04Plan;
     const ID: &'static str = "C04";
     const LEVEL: &'static str = "exploration";
-    const RULE: &'static str = "seeded histories of 2-17 events over {I, P, disposable P, rejected picture (corrupted in transit, truncated in the header, I/O failure), clean-up} on one decoder, Sorenson (I/P/D) and standard mode (I/P), temporal references increasing / random / equal to the reference's / equal to the last picture's / wrapping 255->0; P and D pictures carry intra 'signature' macroblocks and not-coded macroblocks (pure copies), pure-copy probe pictures show which picture is the reference. After every event the reference-management model M is compared with get_last_picture() and with the copied macroblocks. evaluations = decode calls. A case is non-trivial (and counted in distinct_nontrivial) if it is a copied macroblock check that discriminates, i.e. at least one other decoded picture of the history differs from the true reference at that macroblock; distinct by (picture bytes, macroblock, reference identity).";
+    const RULE: &'static str = "seeded histories of 2-17 events over {I, P, disposable P, rejected picture (corrupted in transit, truncated in the header, I/O failure), clean-up} on one decoder, Sorenson (I/P/D) and standard mode (I/P), temporal references increasing / random / equal to the reference's / equal to the last picture's / wrapping 255->0; P and D pictures carry intra 'signature' macroblocks and not-coded macroblocks (pure copies), pure-copy probe pictures show which picture is the reference; one history in 150 has 258-320 pictures, and a sweep runs ultra-long histories (an intra picture, 65 600+ disposable pictures, probes). After every event the reference-management model M is compared with get_last_picture() and with the copied macroblocks. evaluations = decode calls. A case is non-trivial (and counted in distinct_nontrivial) if it is a copied macroblock check that discriminates, i.e. at least one other decoded picture of the history differs from the true reference at that macroblock; distinct by (picture bytes, macroblock, reference identity).";
     fn runs(tier: Tier) -> u64 {
         match tier {
             Tier::Quick => 60_000,
